@@ -732,3 +732,18 @@ Proof.
   intro d. split; [apply blob_manifest_git_object|]. rewrite blob_manifest_git_object.
   apply parse_git_object_ok. vm_compute. intuition discriminate.
 Qed.
+
+(* hashutil.hash_git_data for every git object type and every base algorithm *)
+Theorem hash_git_data_any : forall (H : bytes -> bytes -> bytes) data ty base,
+  (mem_bytes ty GIT_OBJECT_TYPES = true ->
+     hash_git_data H data ty base = Ok (H base (git_object ty data))
+     /\ (~ In SP ty -> parse_git_object (git_object ty data) = Some (ty, data)))
+  /\ (mem_bytes ty GIT_OBJECT_TYPES = false -> hash_git_data H data ty base = Err ValueError).
+Proof.
+  intros H data ty base. unfold hash_git_data, git_object_header. split; intro E; rewrite E.
+  - split; [reflexivity|]. intro Hsp. apply parse_git_object_ok. exact Hsp.
+  - reflexivity.
+Qed.
+
+Lemma git_types_space_free : forallb (fun ty => negb (memb SP ty)) GIT_OBJECT_TYPES = true.
+Proof. vm_compute. reflexivity. Qed.
